@@ -29,7 +29,7 @@ from typing import Dict, List, Optional, Set, Tuple
 from .. import cfg as C
 from .. import lib as L
 from ..core import FuncInfo, Repo
-from ..inline import (MAX_DEPTH, Flattener, FoldedConstant, NotInlinable, _is_private, _loops_over_generators, _map_blocks, _own_jumps, _own_jumps_to_blocks,
+from ..inline import (MAX_DEPTH, Flattener, FoldedConstant, _Desugar, NotInlinable, _is_private, _loops_over_generators, _map_blocks, _own_jumps, _own_jumps_to_blocks,
                       _resolve_generator,
                       _walk_scope, apply_bound_function_values, devirtualise_calls, expand_generators, flatten, normalise_body,
                       propagate_constants, specialise)
@@ -175,7 +175,7 @@ class _Norm:
         changed = False
         for _round in range(6):
             step = False
-            for t in (self.foreign_constants, self.constant_tables, self.spread_stars, self.unbound_method_calls, self.local_tables, self.generator_calls, self.quantifiers_over_displays,
+            for t in (self.foreign_constants, self.class_constants, self.constant_tables, self.spread_stars, self.unbound_method_calls, self.local_tables, self.generator_calls, self.quantifiers_over_displays,
                       self.helpers_in_comprehensions, self.lazy_streams, self.fuse_comprehensions, self.dict_forms, self.list_building):
                 got = t()
                 if DEBUG and got:
@@ -235,6 +235,48 @@ class _Norm:
         if len(self.ctxs) < 2:
             return False
         return self._fold_names(self.fn, self._local() | {"None", "True", "False"})
+
+    # -------------------------------------------------------------- class-level literal constants
+    def class_constants(self) -> bool:
+        """`self.X` / `cls.X` / `Cls.X` where X is bound once in the class body to a literal and never assigned through an instance or the
+        class is that literal (like module-level constants)"""
+        raw, repo = self.raw, self.repo
+        local = self._local()
+        helper = _Desugar(None, repo, raw)
+        changed = [False]
+
+        class T(ast.NodeTransformer):
+            def visit_Attribute(self, n):
+                self.generic_visit(n)
+                if not (isinstance(n.ctx, ast.Load) and isinstance(n.value, ast.Name)):
+                    return n
+                cls = None
+                if raw.cls and n.value.id in ((raw.self_name or "self"), "cls") and (n.value.id == raw.self_name or n.value.id not in local):
+                    cls = raw.cls
+                elif n.value.id in repo.classes and n.value.id not in local:
+                    cls = n.value.id
+                if cls is None:
+                    return n
+                try:
+                    node = helper._class_attr(cls, n.attr)
+                except Exception:
+                    node = None
+                if isinstance(node, ast.Constant) and (node.value is None or isinstance(node.value, (str, int, float, bool))):
+                    # an instance attribute of the same name assigned anywhere in the class hierarchy shadows it
+                    for c in repo.mro(cls):
+                        if c in repo.classes:
+                            for m in repo.classes[c].methods.values():
+                                for x in ast.walk(m):
+                                    if isinstance(x, ast.Attribute) and x.attr == n.attr and not isinstance(x.ctx, ast.Load):
+                                        return n
+                    c_ = FoldedConstant(value=node.value)
+                    c_.const_name = f"{cls}.{n.attr}"
+                    changed[0] = True
+                    return ast.copy_location(c_, n)
+                return n
+
+        T().visit(self.fn)
+        return changed[0]
 
     # -------------------------------------------------------------- f(*(a, b)) -> f(a, b)
     def spread_stars(self) -> bool:
@@ -903,7 +945,6 @@ class _Norm:
             blk.remove(st)
             if not blk:
                 blk.append(ast.copy_location(ast.Pass(), st))
-            _Subst({nm: st.value}).visit(fn) if False else None
             for n in ast.walk(fn):
                 for f_, v in ast.iter_fields(n):
                     if isinstance(v, ast.Name) and v.id == nm and isinstance(v.ctx, ast.Load):
@@ -1179,6 +1220,40 @@ class _Norm:
                 return got
         return None
 
+    def _rewrapped(self, disp: ast.List, before: List[ast.stmt]):
+        """[E(first), *middle, E'(last)] over names bound by `first, *middle, last = SRC` (either end optional): (SRC, E, first, E', last)"""
+        elts = list(disp.elts)
+        stars = [i for i, x in enumerate(elts) if isinstance(x, ast.Starred)]
+        if len(stars) != 1 or not isinstance(elts[stars[0]].value, ast.Name) or len(elts) not in (2, 3):
+            return None
+        mid = elts[stars[0]].value.id
+        first_expr = elts[0] if stars[0] == 1 else None
+        last_expr = elts[-1] if stars[0] == len(elts) - 2 else None
+        if (first_expr is None and last_expr is None) or (len(elts) == 3 and stars[0] != 1):
+            return None
+        for i in range(len(before) - 1, -1, -1):
+            st = before[i]
+            if not (isinstance(st, ast.Assign) and len(st.targets) == 1 and isinstance(st.targets[0], (ast.Tuple, ast.List))):
+                continue
+            tg = st.targets[0].elts
+            tstars = [j for j, x in enumerate(tg) if isinstance(x, ast.Starred)]
+            if len(tstars) != 1 or not isinstance(tg[tstars[0]].value, ast.Name) or tg[tstars[0]].value.id != mid:
+                continue
+            if len(tg) != len(elts) or tstars[0] != stars[0] or not all(isinstance(x, ast.Name) for j, x in enumerate(tg) if j != tstars[0]):
+                return None
+            first_name = tg[0].id if first_expr is not None else None
+            last_name = tg[-1].id if last_expr is not None else None
+            names = [n_ for n_ in (first_name, mid, last_name) if n_]
+            if any(_stores(self.fn, n_) != 1 for n_ in names) or _uses(self.fn, mid) != 1:
+                return None
+            for expr, nm in ((first_expr, first_name), (last_expr, last_name)):
+                if expr is not None and (_uses(self.fn, nm) != _uses(expr, nm) or any(_uses(expr, o) for o in names if o != nm)):
+                    return None
+            if not _is_pure(st.value) or isinstance(st.value, ast.Constant):
+                return None
+            return st.value, first_expr, first_name, last_expr, last_name
+        return None
+
     def _resolve_temp(self, e: ast.AST, before: List[ast.stmt], depth: int = 0) -> ast.AST:
         """a name bound once (in the whole function) by a statement that is always executed before -> the bound expression"""
         if not isinstance(e, ast.Name) or depth > 6 or _stores(self.fn, e.id) != 1:
@@ -1236,6 +1311,25 @@ class _Norm:
             if isinstance(s, ast.Return):
                 tail = [ast.Return(value=ast.Name(id=name, ctx=ast.Load()))]
             return [init] + body + tail
+        # *head, last = SRC ... [*head, E(last)]   (also first, *rest / first, *middle, last)  ->  R = list(SRC); R[-1] = E(R[-1])
+        if isinstance(s, (ast.Assign, ast.Return)) and isinstance(getattr(s, "value", None), ast.List) and \
+                (isinstance(s, ast.Return) or (len(s.targets) == 1 and isinstance(s.targets[0], ast.Name))):
+            got = self._rewrapped(s.value, before or [])
+            if got is not None:
+                src, first_expr, first_name, last_expr, last_name = got
+                name = s.targets[0].id if isinstance(s, ast.Assign) else f"__list__l{next(_counter)}"
+                load = lambda: ast.Name(id=name, ctx=ast.Load())
+                elem = lambda i: ast.Subscript(value=load(), slice=ast.Constant(value=i) if i >= 0 else ast.UnaryOp(op=ast.USub(), operand=ast.Constant(value=-i)), ctx=ast.Load())
+                out: List[ast.stmt] = [ast.Assign(targets=[ast.Name(id=name, ctx=ast.Store())],
+                                                  value=ast.Call(func=ast.Name(id="list", ctx=ast.Load()), args=[copy.deepcopy(src)], keywords=[]), lineno=s.lineno)]
+                for expr, nm, i in ((first_expr, first_name, 0), (last_expr, last_name, -1)):
+                    if expr is not None:
+                        tgt = elem(i)
+                        tgt.ctx = ast.Store()
+                        out.append(ast.Assign(targets=[tgt], value=_subst(expr, {nm: elem(i)}), lineno=s.lineno))
+                if isinstance(s, ast.Return):
+                    out.append(ast.Return(value=load()))
+                return out
         # X = X + [A, B]  (possibly through temporaries of a helper analysed in place: t = X; r = t + [A, B]; X = r) when X only ever holds
         # lists built here  ->  X.append(A); X.append(B)
         if isinstance(s, ast.Assign) and len(s.targets) == 1 and isinstance(s.targets[0], ast.Name):
